@@ -147,11 +147,39 @@ def _prune(base, keep):
 
 
 def load_facts(d):
-    out = {}
+    """Load the per-crate fact files.  Type paths are canonicalised: rustc prints a type by its *visible* path, so a type
+    re-exported from another module (`pub use raw::PairInfoRaw`, `pub use math::Decimal256`) is spelled
+    `haloswap::asset::PairInfoRaw` in downstream crates but `haloswap::asset::raw::PairInfoRaw` where it is defined.  Every
+    such alias of a workspace ADT whose name is unique in its crate is rewritten to the definition path."""
+    import re
+    texts = {}
     for m in MEMBERS:
         with open(os.path.join(d, m + ".json")) as fh:
-            out[m] = json.load(fh)
-    return out
+            texts[m] = fh.read()
+    defs = {}
+    for m in MEMBERS:
+        for a in json.loads(texts[m]).get("adts", []):
+            pth = a["path"]
+            if "::_::" in pth or "<" in pth or "!x" in a.get("span", ""):
+                continue
+            segs = pth.split("::")
+            defs.setdefault((segs[0], segs[-1]), set()).add(pth)
+    uniq = {k: list(v)[0] for k, v in defs.items() if len(v) == 1}
+    if uniq:
+        by_crate = {}
+        for (crate, name), pth in uniq.items():
+            by_crate.setdefault(crate, {})[name] = pth
+        rx = re.compile(r"(?<![\w:])(%s)::((?:[a-z_][a-z0-9_]*::)*)([A-Z]\w*)\b" % "|".join(sorted(by_crate)))
+
+        def sub(mo):
+            crate, mods, name = mo.group(1), mo.group(2), mo.group(3)
+            pth = by_crate.get(crate, {}).get(name)
+            if pth is None or mo.group(0) == pth:
+                return mo.group(0)
+            return pth
+        for m in MEMBERS:
+            texts[m] = rx.sub(sub, texts[m])
+    return {m: json.loads(texts[m]) for m in MEMBERS}
 
 
 def lock_versions(repo=None):
